@@ -13,7 +13,7 @@ RULE = ("contexts: predefined catalogue and random user histories; pairs of "
         "amounts, amounts EQUAL across units by construction (same reference "
         "value through different units), zero and negative equal amounts, "
         "near-ties (x vs x +/- 10^-k), Decimal vs Fraction representation; all "
-        "six operators, both operand orders; units compared by scale. "
+        "six operators, both operand orders; units compared by scale: every alias pair (distinct units of equal scale, predefined l/dm3, J/Nm/Ws ... and generated aliases) with == and the four orderings. "
         "Non-trivial: different units; distinct by (op, unit pair, relation of "
         "reference values)")
 EXHAUSTIVE = {}
@@ -66,6 +66,21 @@ def gen_cases(rng, tier):
             ops.append(["q_bin", rng.choice(OPS), f"{_qty.tok(rng, x)}@{u}", f"{_qty.tok(rng, y)}@{v}", MODE])
             if rng.random() < .1:
                 ops.append(["ueq", u, v])
+        # units compare by their scale: every alias pair (distinct units of
+        # one scale) and a sample of other pairs, all six operators
+        by_cls = {}
+        for u in lin:
+            by_cls.setdefault(ctx.units[u]["cls"], []).append(u)
+        pairs = [(u, v) for us in by_cls.values() for u in us for v in us
+                 if u != v and ctx.units[u]["scale"] == ctx.units[v]["scale"]]
+        rng.shuffle(pairs)
+        pairs = pairs[:16]
+        for _ in range(10):
+            u = rng.choice(lin)
+            pairs.append((u, rng.choice(by_cls[ctx.units[u]["cls"]])))
+        for u, v in pairs:
+            ops.append(["ueq", u, v])
+            ops.append(["ucmp", rng.choice(["lt", "le", "gt", "ge"]), u, v])
         cases.append(_qty.case_of(ctx, ops, ["compare"]))
     return cases
 
@@ -93,6 +108,12 @@ def oracle(case, impl):
                 if ctx.units[u]["scale"] < 0 or ctx.units[v]["scale"] < 0:
                     site = "cmp:negative-scale"
                 fails.append({"site": site, "msg": f"{o} -> {out}, reference values {ra} vs {rb}"})
+        elif o[0] == "ucmp":
+            su, sv = ctx.units[o[2]]["scale"], ctx.units[o[3]]["scale"]
+            exp = "ok " + ("true" if _rel(o[1], su, sv) else "false")
+            if out != exp:
+                site = "cmp:negative-scale" if su < 0 or sv < 0 else "cmp:units-order"
+                fails.append({"site": site, "msg": f"{o} -> {out}, scales {su} vs {sv}"})
         elif o[0] == "ueq":
             exp = "ok " + ("true" if ctx.units[o[1]]["scale"] == ctx.units[o[2]]["scale"] else "false")
             if out != exp:
@@ -107,4 +128,6 @@ def nontrivial_key(case, impl):
             u, v = o[2].rpartition("@")[2], o[3].rpartition("@")[2]
             if u != v:
                 keys.add((o[1], u, v, out))
+        elif o[0] in ("ueq", "ucmp") and o[-1] != o[-2]:
+            keys.add(tuple(o) + (out,))
     return keys
